@@ -267,7 +267,11 @@ def shim_re(limit=100):
 def big_set(n):
     """n string terminals over {a,b,c,d}: all strings of length 1..4 in enumeration order, named K000.."""
     vals = list(itertools.islice((s for s in util.strings('abcd', 4, 1)), n))
-    return [TDef('K%03d' % i, 'str', v) for i, v in enumerate(vals)]
+    out = [TDef('K%03d' % i, 'str', v) for i, v in enumerate(vals)]
+    # a high-priority one-character terminal (sorted first) whose two-character extension has default priority and is
+    # sorted beyond index 100: the documented order must win even if a later alternation chunk could match more text
+    out += [TDef('HI', 'str', 'e', '', 2), TDef('LO', 'str', 'ef'), TDef('F', 'str', 'f'), TDef('HJ', 'str', 'g', '', 1), TDef('LP', 'str', 'gf')]
+    return out
 
 
 def check_big(n, shim, res, only=None):
@@ -293,7 +297,7 @@ def check_big(n, shim, res, only=None):
     from lark.lexer import LexerThread
     vals = [t.value for t in tdefs if t.kind == 'str']
     # inputs: every pair of terminal values from a window around the chunk boundaries + all strings <= 4 over abcd
-    inputs = list(util.strings('abcd', 4))
+    inputs = list(util.strings('abcd', 4)) + ['ef', 'efef', 'aef', 'gf', 'gfef', 'fgf', 'efg', 'abcdef']
     edge = [v for i, v in enumerate(vals) if i % 50 in (0, 1, 48, 49) or i >= n - 4]
     inputs += [a + b for a in edge for b in edge]
     for w in inputs:
